@@ -37,6 +37,7 @@ func init() {
 			{ID: "C15-R3", Title: "characteristics agree with the metadata", Decides: "type, format, permissions, unit, min/max/step, default", Floor: 146, Run: c15r3},
 			{ID: "C15-R4", Title: "services agree with the metadata", Decides: "required characteristics present, no duplicate types", Floor: 43, Run: c15r4},
 			{ID: "C15-R5", Title: "constructors without metadata entry, accessories, categories", Decides: "internal consistency of the rest of the catalogue", Floor: 35, Run: c15r5},
+			{ID: "C15-R6", Title: "bound setters and SetValue act unconditionally", Decides: "constructors hold exactly the constants they name; every constructor is usable", Floor: 10, Run: settersUnconditional},
 		},
 	})
 }
